@@ -179,7 +179,11 @@ pub fn run(ctx: &Ctx) -> Rep {
     let n5 = r5.distinct;
     rep.merge(r5);
 
+    let leg_div: u64 = if ctx.leg == "checked" && !ctx.thorough() && !ctx.smoke() { 4 } else { 1 };
     let s6 = par_subsets::<6, X, _, _>(ctx, unit_stride, mk, |st, c, _| {
+        if !selected(c, seed, 0xC4EC, leg_div) {
+            return;
+        }
         st.rep.distinct += 1;
         check6(st, &m, c);
         if selected(c, seed, 0x36, perm_rate_6) {
@@ -199,6 +203,9 @@ pub fn run(ctx: &Ctx) -> Rep {
     rep.merge(r6);
 
     let s7 = par_subsets::<7, X, _, _>(ctx, unit_stride, mk, |st, c, _| {
+        if !selected(c, seed, 0xC4EC, leg_div) {
+            return;
+        }
         st.rep.distinct += 1;
         check7(st, &m, c);
         if selected(c, seed, 0x37, perm_rate_7) {
@@ -295,10 +302,10 @@ pub fn run(ctx: &Ctx) -> Rep {
     rep.note("witness_fingerprint", format!("{:016x}", acc.wit_hash));
     if !ctx.smoke() {
         rep.floor("five_card_subsets", n5, 2_598_960);
-        rep.floor("six_card_subsets", n6, 20_358_520);
-        rep.floor("seven_card_subsets", n7, 133_784_560);
+        rep.floor("six_card_subsets", n6, if leg_div == 1 { 20_358_520 } else { 20_358_520 / leg_div / 2 });
+        rep.floor("seven_card_subsets", n7, if leg_div == 1 { 133_784_560 } else { 133_784_560 / leg_div / 2 });
         rep.floor("witnesses the sort had to reorder", acc.reordered, 1000);
-        rep.exhaustive = Some(true);
+        rep.exhaustive = Some(leg_div == 1);
     }
     rep.rule = format!(
         "every 5-, 6- and 7-subset of the deck (enumerated once each = distinct). 6/7: canonical slot order plus {} seeded order(s) for 1-in-{} / 1-in-{} hands, \
